@@ -34,6 +34,8 @@ type Finding struct {
 	MaxBad int `json:"max_bad,omitempty"`
 }
 
+var evalsRe = regexp.MustCompile(`evals=(\d+)`)
+
 var pairsDifferRe = regexp.MustCompile(`\((\d+) of \d+ pairs differ\)`)
 
 func (f *Finding) covers(output string) bool {
@@ -522,6 +524,34 @@ func checkCmd(args []string) int {
 	}
 	if len(samples) == 0 {
 		ev.Coverage["samples"] = []any{"none"}
+	}
+	// bounded stand-ins: how much the enumerations of this run covered (measured from the harness reports)
+	boundedEvals, boundedRun := 0, 0
+	var boundedSamples []any
+	for _, r := range results {
+		if r.vc.Bounded == "" || r.vc.ExpectSat {
+			continue
+		}
+		boundedRun++
+		if m := evalsRe.FindStringSubmatch(r.res.Output); m != nil {
+			n, _ := strconv.Atoi(m[1])
+			boundedEvals += n
+		}
+		if len(boundedSamples) < 4 {
+			boundedSamples = append(boundedSamples, map[string]any{"obligation": r.vc.Name, "clause": r.vc.Clause, "bound": r.vc.Bounded, "status": r.res.Status, "report": truncate(r.res.Output, 300)})
+		}
+	}
+	if boundedRun > 0 {
+		ev.Coverage["bounded_evaluations"] = boundedEvals
+		ev.Coverage["bounded_samples"] = boundedSamples
+	}
+	if nDischarged == 0 && boundedRun > 0 {
+		// nothing was discharged deductively: the run is an exploration (bounded enumeration), and is labelled as one
+		ev.Level = "exploration"
+		ev.Coverage["evaluations"] = boundedEvals
+		ev.Coverage["distinct_nontrivial"] = boundedRun
+		ev.Coverage["rule"] = "bounded enumeration on the real code; each bounded obligation is one distinct family of cases (its bound is stated in bounded_samples); evaluations are the API calls the harnesses report"
+		ev.Coverage["samples"] = boundedSamples
 	}
 	b, _ := json.MarshalIndent(ev, "", " ")
 	os.WriteFile(evPath, b, 0o644)
